@@ -17,7 +17,7 @@ RULE = ('Evaluation = one stage boundary (quiescent point after find_slices / fi
 ASSUMPTIONS = ['the chunk emptied by the crop (known finding D8, decided by C08) is not generated here']
 REQUIRED = ['single_valid_hit', 'all_nan', 'group_split_in_2', 'group_split_in_3', 'gt100_slices',
             'msa_crop_active', 'groups_fewer_than_slices', 'gt100_slices_with_split',
-            'nonunique_index_labels_with_crop', 'gt10_groups_two_splits']
+            'nonunique_index_labels_with_crop', 'gt10_groups_two_splits', 'range_index_not_from_0_with_crop']
 SIZES = {'quick': dict(generic=330, bimodal=60, many=4), 'thorough': dict(generic=9000, bimodal=1500, many=40)}
 
 
@@ -26,7 +26,7 @@ def plan(tier, seed):
     out = []
     for i in range(z['generic']):
         out.append({'fam': 'generic', 's': seed, 'p': NUM, 'i': i,
-                    'k': {'big': i % 9 == 0, 'index': 'concat' if i % 4 == 1 else None, 'anom': i % 3 == 2}})
+                    'k': {'big': i % 9 == 0, 'index': ['concat', 'range_offset', 'range_desc'][(i // 4) % 3] if i % 4 == 1 else None, 'anom': i % 3 == 2}})
     for i in range(z['bimodal']):
         out.append({'fam': 'bimodal', 's': seed, 'p': NUM, 'i': 100000 + i,
                     'k': {'third': i % 2 == 0, 'nce': 1 + i % 2, 'lookback': 100, 'bins': 0,
@@ -39,18 +39,43 @@ def plan(tier, seed):
                     'k': {'file': i % 17, 'perturb': (i // 17) % 5, 'default_prms': i < 17}})
     for i in range(3 if tier == 'quick' else 40):       # > 10 groups, several of them split
         out.append({'fam': 'manysplit', 's': seed, 'p': NUM, 'i': 400000 + i})
+    for i in range(8 if tier == 'quick' else 24):       # number of slices swept through a multiple of 100
+        out.append({'fam': 'exactslices', 's': seed, 'p': NUM, 'i': 500000 + i, 'n_single': 94 + i % 8 + 100 * (i // 8 % 2)})
     for i in range(z['many']):
         out.append({'fam': 'manyslices', 's': seed, 'p': NUM, 'i': 300000 + i})
     return out
 
 
 def weight(d):
-    return {'manyslices': 12.0, 'manysplit': 3.0}.get(d['fam'], 0.35)
+    return {'manyslices': 12.0, 'manysplit': 3.0, 'exactslices': 5.0}.get(d['fam'], 0.35)
+
+
+def exact_slices_case(desc):
+    """A split low group + n isolated single hits, each a slice of its own: the number of slices (and the largest
+    group id) is swept through 100 / 200."""
+    rng = scenes.rng_for(desc['s'], NUM, desc['i'])
+    rows = []
+    for t in range(70):
+        dt = -t * 7.0
+        hs = []
+        if rng.uniform() < 0.9:
+            hs.append(float(500 + rng.normal(0, 40)))
+        if rng.uniform() < 0.8:
+            hs.append(float(1000 + rng.normal(0, 40)))
+        if not hs:
+            rows.append(['a', dt, float('nan'), 0])
+        for k, h in enumerate(sorted(hs)):
+            rows.append(['a', dt, h, k + 1])
+    for j in range(desc['n_single']):
+        rows.append(['b', -j * 7.0 - 3, 4000 + j * 700.0, 1])
+    sc = {'rows': scenes.dedupe(rows), 'names': ['a', 'b'], 'order': 'none', 'fam': 'exactslices'}
+    import copy as _c
+    return {'scene': sc, 'prm': {'call': _c.deepcopy(scenes.PRMS_MANY_SLICES), 'glob': {}}}
 
 
 def check(desc):
     from ampycloud.data import CeiloChunk
-    case = pipeline.materialise(desc)
+    case = exact_slices_case(desc) if desc['fam'] == 'exactslices' else pipeline.materialise(desc)
     df = scenes.frame(case['scene'])
     eff = obs.effective(case['prm'])
     res = {'evals': 0, 'nontrivial': [], 'counters': {'runs': 1}, 'case': case, 'viol': []}
@@ -75,6 +100,10 @@ def check(desc):
         tags.add('nonunique_index_labels_with_crop')
     if not res['counters'].get('crashed') and ch.n_groups is not None and ch.n_groups > 10 and (ch.groups['ncomp'] > 1).sum() >= 2:
         tags.add('gt10_groups_two_splits')
+    if not res['counters'].get('crashed') and ch.n_slices is not None and ch.n_slices % 100 == 0 and ch.n_slices:
+        tags.add('slices_multiple_of_100')
+    if case['scene'].get('index_kind') == 'range' and 'msa_crop_active' in tags:
+        tags.add('range_index_not_from_0_with_crop')
     if 'gt100_slices' in tags and any(t.startswith('group_split_in') for t in tags):
         tags.add('gt100_slices_with_split')
     viol += [b for b in rec.broken if b['prop'] == 'C05']
